@@ -343,6 +343,37 @@ func c08DepthCheck(c *fw.Ctx, shape int) *fw.Violation {
 	return nil
 }
 
+// c08MatchLocals: a name first created in a case body belongs to the case, whatever selected the case (a literal, a name,
+// an array pattern), at rule level, in a function, and as one site over several elements; afterwards it is unset.
+func c08MatchLocals() []*progCase {
+	gone := func(names ...string) Stmt {
+		args := []Expr{S("left behind:")}
+		for _, n := range names {
+			args = append(args, &IsExpr{V(n), "unknown"})
+		}
+		return Pr(args...)
+	}
+	mk := func(subj Expr, pat Expr) Expr {
+		return &MatchExpr{Subj: subj, Cases: []MatchCase{{Pats: []Expr{pat}, Block: Blk(Ex(Asg("=", V("fresh"), N("1"))), Ex(Asg("=", Mem(V("made"), "k"), N("2"))), Pr(S("in case"), V("fresh"), V("made")))}, {Pats: []Expr{V("_")}, Body: S("other")}}}
+	}
+	pats := []struct{ subj, pat func() Expr }{
+		{func() Expr { return N("1") }, func() Expr { return N("1") }},
+		{func() Expr { return S("s") }, func() Expr { return S("s") }},
+		{func() Expr { return &BoolLit{B: true} }, func() Expr { return &BoolLit{B: true} }},
+		{func() Expr { return Arr_(N("1"), N("2")) }, func() Expr { return Arr_(N("1"), N("2")) }},
+		{func() Expr { return N("1") }, func() Expr { return V("v") }},
+		{func() Expr { return Arr_(N("1"), N("2")) }, func() Expr { return Arr_(N("1"), V("w")) }},
+	}
+	var out []*progCase
+	for _, p := range pats {
+		out = append(out, &progCase{P: &Program{Rules: []*Rule{{Kind: "BEGIN", Body: Blk(Ex(Asg("=", V("r"), mk(p.subj(), p.pat()))), gone("fresh", "made"), Ex(Asg("=", V("r"), mk(p.subj(), p.pat()))), gone("fresh", "made"))}}}})
+		f := &Func{Name: "viaf", Body: Blk(Ex(Asg("=", V("r"), mk(p.subj(), p.pat()))), gone("fresh", "made"), &Return{X: N("0")})}
+		out = append(out, &progCase{P: &Program{Funcs: []*Func{f}, Rules: []*Rule{{Body: Blk(Ex(CallE(V("viaf"))), gone("fresh", "made", "r"))}, {Kind: "END", Body: Blk(gone("fresh", "made", "r"))}}}, Files: []inFile{{"in.json", "[1,2,3]"}}})
+		out = append(out, &progCase{P: &Program{Rules: []*Rule{{Body: Blk(&If{Cond: Bin("==", V("$"), N("2")), Then: Blk(Ex(Asg("=", V("r"), mk(p.subj(), p.pat()))))}, gone("fresh", "made"))}, {Kind: "END", Body: Blk(gone("fresh", "made"))}}}, Files: []inFile{{"in.json", "[1,2,3]"}}})
+	}
+	return out
+}
+
 func init() {
 	nb := len(c08BodyStmts())
 	nt := len(c08Transitions())
@@ -362,7 +393,7 @@ func init() {
 	}
 	fw.Register(addTok(tokFramesC08, &fw.Prop{
 		ID: "C08",
-		Rule: "(0) arguments and results are values when passed / returned: lists read, effect, read of one scalar location as arguments, and calls returning a global next to calls changing it (the call and return programs of C09's copy-time family); (i) functions of arity 0-2 with every body of <= 3 statements over 10 statements (assign a parameter / a new name / an existing global, store through a container parameter, three returns, a call of a second function, bounded recursion, showing the parameters) called with every list of 0-3 arguments over {scalar, global array, array literal, unset variable, missing member, index past the end} from 4 expression positions; every name is shown afterwards (unset or value); " +
+		Rule: "(0) names first created in a case body are gone after the case, for 6 kinds of selecting pattern x 3 placements; arguments and results are values when passed / returned: lists read, effect, read of one scalar location as arguments, and calls returning a global next to calls changing it (the call and return programs of C09's copy-time family); (i) functions of arity 0-2 with every body of <= 3 statements over 10 statements (assign a parameter / a new name / an existing global, store through a container parameter, three returns, a call of a second function, bounded recursion, showing the parameters) called with every list of 0-3 arguments over {scalar, global array, array literal, unset variable, missing member, index past the end} from 4 expression positions; every name is shown afterwards (unset or value); " +
 			"(ii) explicit-state search over histories of 15 frame-exit transitions (normal end, return from loops / match blocks, match with expression / block body, match blocks left by continue / break / next, calls left by next, nested call+match+call, 300-deep recursion, no case selected, surplus / missing arguments) fired from 4 nesting contexts, all histories of length <= 2 (thorough 3): the state is the evaluator's frame stack after the history and the invariant is that it equals the initial one-frame stack, output compared with the model; " +
 			"(iii) each transition over 5000 elements; (iv) the refusal depth of direct, mutual and through-match recursion found by bisection and required to be the same after 5000 repetitions of each transition; states = frame stacks and call classes reached",
 		Plan: func(t fw.Tier) int { return 3*nb + c08NCtx*nt + c08NCtx + len(c08Shapes) + 1 },
@@ -375,6 +406,10 @@ func init() {
 			case u == 3*nb+c08NCtx*nt+c08NCtx+len(c08Shapes):
 				// arguments and results are values at the moment they are passed / returned (programs shared with C09)
 				copyTimeRun(c, "call", "return")
+				for i, pc := range c08MatchLocals() {
+					pc, i := pc, i
+					c.Do(func() any { return c08Spec{Form: "matchlocals", Shape: i} }, func() *fw.Violation { v, _, _ := pc.check(c); return v })
+				}
 			case u < 3*nb:
 				arity, first := u/nb, u%nb
 				lists := argLists()
@@ -434,6 +469,9 @@ func init() {
 				return nil
 			}
 			switch s.Form {
+			case "matchlocals":
+				v, _, _ := c08MatchLocals()[s.Shape].check(c)
+				return v
 			case "call":
 				return c08CallCheck(c, s)
 			case "residue":
